@@ -159,7 +159,9 @@ def check(ctx):
         if ctx.tier == "quick":
             names = set(QUICK_ALWAYS) | set(rnd.sample([t[0] for t in TARGETS if t[0] not in QUICK_ALWAYS], 2))
             plan = [(t, "crash", "kv", "all" if t[0] in ("roa", "cainit", "pubrm") else "sample8") for t in TARGETS if t[0] in names]
-            plan += [(t, "once", "kv", "sample2") for t in TARGETS if t[0] in names]
+            # a single failed write: two sampled cuts per operation - EVERY cut of the creation of an entity (few writes; the
+            # init command is the one write whose failure must leave nothing behind, in memory either)
+            plan += [(t, "once", "kv", "all" if t[0] == "cainit" else "sample2") for t in TARGETS if t[0] in names]
             plan += [(FS_TARGETS[0], "crash", "fs", "all"), (rnd.choice(FS_TARGETS[1:]), "crash", "fs", "sample4"),
                      (FS_TARGETS[0], "once", "fs", "sample5"),
                      (STALE_TARGETS[0], "once", "kvcold", "sample8"), (rnd.choice(STALE_TARGETS[1:]), "once", "kvcold", "sample3")]
